@@ -16,6 +16,7 @@ LsmST2 == { [Base EXCEPT !.memsize = 2, !.maxlev = 2] }
 LsmLV == { [Base EXCEPT !.strat = "lv", !.memsize = ms, !.maxlev = 3, !.base = 1, !.ratio = 2] : ms \in {1, 2} }
 LsmLV1 == { [Base EXCEPT !.strat = "lv", !.memsize = 1, !.maxlev = 3, !.base = 4, !.ratio = 2] }
 LsmFIFO == { [Base EXCEPT !.strat = "fifo", !.memsize = ms, !.thr = 1, !.maxlev = 3] : ms \in {1, 2} }
+LsmAll == LsmST \cup LsmLV \cup LsmFIFO
 \* a bloom filter false positive: the table {2} answers "maybe" for key 1 (multi-segment get)
 LsmFP == { [Base EXCEPT !.memsize = 1, !.maxlev = 3, !.fp = {<<{2}, 1>>, <<{1}, 2>>}] }
 P(th, key, val) == [th |-> th, k |-> "put", key |-> key, hi |-> 0, val |-> val]
@@ -56,6 +57,9 @@ T0_04 == <<{0}, {0, 4}>>
 T0_0_01 == <<{0}, {0}, {0, 1}>>
 \* targeted envelopes for the sensitivity runs
 LsmLVconc == { [Base EXCEPT !.strat = "lv", !.memsize = 1, !.maxlev = 3, !.base = 8, !.ratio = 2, !.W = 3] }
+\* variant (b) of compaction_concurrent_install: two levels, the concurrent writer deletes
+LsmSTconc2 == { [Base EXCEPT !.memsize = 1, !.maxlev = 2, !.W = 3] }
+KPG_D == <<{"put", "get"}, {"del"}>>
 Ops51 == <<5, 1>>
 KPG_P == <<{"put", "get"}, {"put"}>>
 NoPrefix == {}
